@@ -753,3 +753,66 @@ fn c18_try_advance_stalled() {
     assert!(G_STORES == 0 && raw_epoch(&c.global.epoch) == g, "C18.advance.stalled_traversal_does_not_advance");
     assert!(crate::ebr_impl::epoch::verif_epoch::data_of(r) == g, "C18.advance.stalled_traversal_reports_unchanged_epoch");
 }}
+
+// ================================================================================================
+// Collector / LocalHandle: registration and the handle's share (C15, C18)
+// ================================================================================================
+static mut RELEASES: u32 = 0;
+static mut RELEASE_WHO: usize = 0;
+fn k_release_handle(l: &Local) { unsafe { RELEASES += 1; RELEASE_WHO = l as *const Local as usize; } }
+
+l3_harness! {
+/// LocalHandle: pin() pins ITS participant (one call, its guard); dropping the handle releases exactly
+/// one handle share of that participant.
+#[kani::stub(Local::pin, k_pin)]
+#[kani::stub(Local::release_handle, k_release_handle)]
+fn c15_local_handle() {
+    let c: &'static Collector = leak(Collector::new());
+    let l_store = ManuallyDrop::new(mk_local(c, 2));
+    let l: &Local = &l_store;
+    let h = LocalHandle { local: l };
+    let g = h.pin();
+    assert!(PINS == 1 && g.local == l as *const Local && l.guard_count.get() == 1, "C16.handle_pin.pins_its_participant_once");
+    core::mem::forget(g);
+    assert!(RELEASES == 0, "C15.handle.alive_while_held");
+    drop(h);
+    assert!(RELEASES == 1 && RELEASE_WHO == l as *const Local as usize, "C15.handle_drop.releases_exactly_one_handle_share");
+}}
+
+l3_harness! {
+/// Collector::register: a fresh participant - one handle, no guard, unpinned, empty bag - that holds one
+/// more reference to the collector and is reachable from the registry head (so advancement sees it).
+#[kani::unwind(4)]
+fn c18_register() {
+    let c: &'static Collector = leak(Collector::new());
+    let refs = std::sync::Arc::strong_count(&c.global);
+    let old_head = crate::ebr_impl::sync::list::verif_list::head_word(&c.global.locals);
+    let h = c.register();
+    let l: &Local = &*h.local;
+    assert!(l.handle_count.get() == 1 && l.guard_count.get() == 0 && raw_epoch(&l.epoch) == 0, "C16.register.fresh_participant_one_handle_unpinned");
+    assert!((*l.bag.get()).is_empty() && !l.must_collect.get() && !l.collecting.get(), "C15.register.fresh_participant_has_no_garbage");
+    assert!(std::sync::Arc::strong_count(&c.global) == refs + 1 && core::ptr::eq(l.global(), &*c.global), "C15.register.participant_keeps_its_collector_alive");
+    assert!(crate::ebr_impl::sync::list::verif_list::head_word(&c.global.locals) == &l.entry as *const Entry as usize, "C18.register.participant_is_reachable_from_registry_head");
+    assert!(crate::ebr_impl::sync::list::verif_list::next_word(&l.entry) == old_head, "C18.register.keeps_earlier_participants_reachable");
+    core::mem::forget(h);
+}}
+
+l3_harness! {
+/// Collector teardown: dropping the global queue runs every function still stored in it, exactly once,
+/// in FIFO order (nothing deferred is lost when the last handle goes).
+#[kani::stub(Deferred::call, k_call_tagged)]
+#[kani::stub(crossbeam_utils::Backoff::spin, k_no_spin)]
+#[kani::unwind(5)]
+fn c15_queue_drop_runs_leftovers() {
+    let q: Queue<SealedBag> = Queue::new();
+    let g = ManuallyDrop::new(unprotected());
+    let n: usize = kani::any();
+    kani::assume(n <= 2);
+    if n >= 1 { q.push(bag_with(2, 1, 0).seal(crate::ebr_impl::epoch::verif_epoch::mk(kani::any())), &g); }
+    if n >= 2 { q.push(bag_with(2, 1, 1).seal(crate::ebr_impl::epoch::verif_epoch::mk(kani::any())), &g); }
+    assert!(EXEC_N == 0, "C15.queue.stores_without_running");
+    drop(q);
+    assert!(EXEC_N == n && (n < 1 || (EXEC[0] == 1 && EXEC_ORDER[0] == 0)) && (n < 2 || (EXEC[1] == 1 && EXEC_ORDER[1] == 1)), "C15.queue_drop.runs_every_leftover_function_exactly_once_fifo");
+    kani::cover!(n == 2, "cover.queue_drop.two");
+}}
+fn k_no_spin(_b: &crossbeam_utils::Backoff) {}
